@@ -30,7 +30,8 @@ import traceback
 from . import tlc
 
 VERIF = tlc.VERIF
-EVIDENCE = VERIF / "evidence"
+# (runs against a deliberately changed tree - tools/prescreen.sh, seedcheck.sh, seedregress.sh - write their evidence elsewhere)
+EVIDENCE = pathlib.Path(os.environ["VERIF_EVIDENCE_DIR"]) if os.environ.get("VERIF_EVIDENCE_DIR") else VERIF / "evidence"
 REPLAYS = VERIF / "replays"
 KNOWN = VERIF / "known_findings.json"
 
